@@ -145,6 +145,25 @@ func runDuplexTier(t *testing.T, rep *kit.Report, env kit.Env) {
 					if r.kind == 'R' && r.from == 'B' && r.seq <= 40 {
 						rep.Violate("duplex/sequence-number-reused", fmt.Sprintf("event %d (%s) got regular sequence number %d although 40 numbers were already used under the same key; %s", i, e, r.seq, desc), map[string]any{"k": k, "events": evs, "role": role})
 					}
+					// the adversary goes first: the frame reflected to its own sender, and copies of
+					// it with the sequence number rewritten to 1, 200 and 2^32-1 at the receiver -
+					// none may unseal, and none may disturb what follows.
+					if err := unsealAt(src, ss, r.wire); err == nil {
+						rep.Violate("duplex/reflected-frame-accepted", fmt.Sprintf("event %d (%s, seq %d) unseals at its own sender; %s", i, e, r.seq, desc), map[string]any{"k": k, "events": evs, "role": role})
+					}
+					for _, fs := range []uint32{1, 200, 0xFFFFFFFF} {
+						if fs == r.seq {
+							continue
+						}
+						g, err := dst.FrameBuilder().ParseFrame(append([]byte(nil), r.wire...), nil, 0)
+						if err != nil {
+							panic(err)
+						}
+						g.(*frame.FrameV1).SetSequenceNum(fs)
+						if err := g.Unseal(ds); err == nil {
+							rep.Violate("duplex/forged-frame-accepted", fmt.Sprintf("a copy of event %d (%s) with its sequence number rewritten from %d to %d unseals; %s", i, e, r.seq, fs, desc), map[string]any{"k": k, "events": evs, "role": role})
+						}
+					}
 					if err := unsealAt(dst, ds, r.wire); err != nil {
 						rep.Violate("duplex/in-order-rejected", fmt.Sprintf("event %d (%s, seq %d) delivered at once does not unseal: %v; %s", i, e, r.seq, err, desc), map[string]any{"k": k, "events": evs, "role": role})
 					}
